@@ -508,6 +508,8 @@ impl<M: Manager, W: From<Object<M>>> Pool<M, W> {
      * always reports a `max_size` of 0 for closed pools.
      */
     pub fn resize(&self, max_size: usize) {
+        #[cfg(deadpool_verif)]
+        crate::verif::point("resize.lock");
         let mut slots = self.inner.slots.lock().unwrap();
         if self.inner.semaphore.is_closed() {
             return;
@@ -586,6 +588,8 @@ impl<M: Manager, W: From<Object<M>>> Pool<M, W> {
         mut predicate: impl FnMut(&M::Type, Metrics) -> bool,
     ) -> RetainResult<M::Type> {
         let mut removed = Vec::with_capacity(self.status().size);
+        #[cfg(deadpool_verif)]
+        crate::verif::point("retain.lock");
         let mut guard = self.inner.slots.lock().unwrap();
         let mut i = 0;
         // This code can be simplified once `Vec::extract_if` lands in stable Rust.
@@ -619,6 +623,8 @@ impl<M: Manager, W: From<Object<M>>> Pool<M, W> {
     ///
     /// This operation resizes the pool to 0.
     pub fn close(&self) {
+        #[cfg(deadpool_verif)]
+        crate::verif::point("close.lock");
         let mut slots = self.inner.slots.lock().unwrap();
         self.inner.semaphore.close();
         self.resize_locked(&mut slots, 0);
@@ -632,6 +638,8 @@ impl<M: Manager, W: From<Object<M>>> Pool<M, W> {
     /// Retrieves [`Status`] of this [`Pool`].
     #[must_use]
     pub fn status(&self) -> Status {
+        #[cfg(deadpool_verif)]
+        crate::verif::point("status.lock");
         let slots = self.inner.slots.lock().unwrap();
         let users = self.inner.users.load(Ordering::Relaxed);
         // `users` counts the objects which are handed out and the callers
